@@ -367,7 +367,7 @@ where
     }
 }
 
-// TODO impl Drop for VirtualDir: close backing file descriptor
+// The backing file descriptor is closed by the owner of the stream (see `VirtualSystem::fdopendir`).
 
 #[cfg(test)]
 mod tests {
